@@ -160,15 +160,26 @@ def prove_property(pid, tier="quick", log=print):
             for kind, detail in rep.undecided:
                 report["undecided"].append({"function": c.target, "kind": kind, "detail": detail})
             # vacuity: each finished path must be reachable
+            # vacuity: every variant must have at least one finished path whose path condition is satisfiable.  (A single
+            # unsatisfiable finished path is not a fault: when the feasibility query of a branch times out under load the
+            # interpreter explores the branch anyway -- sound, obligations under a false path condition are trivially true -- so
+            # such a path proves nothing and is only counted.)
             n_cover = 0
+            per_variant = {}
             for p in rep.paths:
                 if p.status == "ok" and getattr(p, "cover", None) is not None:
-                    r = check_sat(p.cover, 3000)
+                    r = check_sat(p.cover, 5000)
                     n_cover += 1
+                    pv = per_variant.setdefault(getattr(p, "variant", None), {"sat": 0, "unsat": 0, "unknown": 0, "trace": None})
+                    pv[r if r in ("sat", "unsat") else "unknown"] += 1
                     if r == "unsat":
-                        report["vacuity"].append({"function": c.target, "problem": "path condition unsatisfiable",
-                                                  "trace": [str(t) for t in p.trace][:20]})
+                        pv["trace"] = [str(t) for t in p.trace][:20]
+            for variant, pv in per_variant.items():
+                if pv["sat"] == 0 and pv["unknown"] == 0:
+                    report["vacuity"].append({"function": c.target, "variant": variant, "problem": "no finished path of this variant has a "
+                                              "satisfiable path condition", "trace": pv["trace"]})
             f["paths_cover_checked"] = n_cover
+            f["paths_infeasible_explored"] = sum(pv["unsat"] for pv in per_variant.values())
             names_seen = set()
             seen_vc = set()
             todo = []
